@@ -216,7 +216,9 @@ func c14PayloadCond(c *Ctx) {
 	}
 	for _, f := range []string{"Modulus", "Prime1", "Prime2"} {
 		if found[f] == 0 {
-			r.Fail(rule, fmt.Sprintf("%s: emission of %s", name, f), p.Rel(fn.Pos()), "no append of the bytes of "+f+" found")
+			// pattern not found (copy into a pre-sized buffer, a helper, a writer …):
+			// not an observation about the code — the lane interpretation decides
+			r.Undecided(rule, fmt.Sprintf("%s: emission of %s", name, f), p.Rel(fn.Pos()), "no append of the bytes of "+f+" found")
 		}
 	}
 	r.Floor(rule, 3)
@@ -338,15 +340,32 @@ func c14Verbatim(c *Ctx) {
 			}
 			walk(st.Val)
 			switch {
+			case len(bad) > 0 && !c14Rewrites(bad):
+				// something the walk does not follow (a re-slice, Cut, a helper): not an observation
+				sort.Strings(bad)
+				r.Undecided(rule, construct, p.Rel(st.Pos()), "between the input and the store the walk meets "+strings.Join(bad, ", ")+", which it does not follow")
 			case len(bad) > 0:
 				sort.Strings(bad)
 				r.Fail(rule, construct, p.Rel(st.Pos()), "the name passes through "+strings.Join(bad, ", ")+" before it is stored: a distinguished name that this rewriting changes (trailing or escaped white space, case …) does not round-trip")
 			case !reached:
-				r.Fail(rule, construct, p.Rel(st.Pos()), "the stored name does not derive from the input parameter")
+				r.Undecided(rule, construct, p.Rel(st.Pos()), "the walk does not reach the input parameter from the stored name")
 			default:
 				r.OK(rule, construct, p.Rel(st.Pos()), "parameter → conversions / SplitN / part selection → field")
 			}
 		}
 	}
 	r.Floor(rule, 1)
+}
+
+// c14Rewrites: the walk met a call that is known to rewrite text (trimming,
+// case mapping, replacing): that is an observed offending construct.
+func c14Rewrites(bad []string) bool {
+	for _, b := range bad {
+		for _, k := range []string{".Trim", ".ToLower", ".ToUpper", ".Title", ".Replace", ".Map(", ".Fields", ".ToValidUTF8"} {
+			if strings.Contains(b, k) {
+				return true
+			}
+		}
+	}
+	return false
 }
